@@ -63,7 +63,7 @@ func init() {
 		Level:     "exploration",
 		Technique: "runtime monitor of remote.NewWriteHandler in front of a real tsdb.DB: statement-derived reference validation per request, stored delta (querier + exemplar querier) vs. status and written-count headers; codec round trip of every generated request",
 		LevelText: "Per case a fresh tsdb.DB (exemplar storage on, no out-of-order window) receives 5 (quick) / 8 (thorough) generated snappy-framed requests through remote.NewWriteHandler (protocol 1.0 prompb.WriteRequest and 2.0 writev2.Request with a real symbol table, Marshal and OptimizedMarshal), optionally with start-timestamp zero-sample ingestion and metadata appending. Requests mix valid series (floats incl. NaN payloads and stale markers, integer/float/custom-bucket histograms, exemplars, metadata, unsorted label order, one label set split over two series entries) with invalid ones (no metric name, duplicate label names, invalid UTF-8, empty label name, label/metadata/exemplar symbol references outside the table, odd reference count, series without samples, invalid histograms) and with samples that are out of order, duplicate-timestamp or exact duplicates relative to stored data or to earlier samples of the same request. A reference classifies every sample (valid / invalid against stored data / invalid only within the request / exact duplicate) from the documented in-order rules. Oracle: the stored delta (full querier dump and exemplar dump before/after) is exactly the valid samples and exemplars under the decoded (sorted) label sets, nothing of an invalid series or sample is stored; 2.0: status 204 iff nothing was rejected, else 400, never 5xx, and the Samples/Histograms/Exemplars-Written headers equal the stored delta; 1.0: either 2xx with exactly the valid samples stored or 4xx with nothing stored. Every request is also decoded again from its bytes and compared field by field (labels via symbol table, timestamps, start timestamps, bitwise values, histograms, exemplars, metadata). Held on the observed requests only.",
-		LevelNote: "Trusted: the tsdb querier/exemplar querier as the observer of what is stored. Reductions (oracle ladder): exact duplicates (same timestamp, same value as the newest sample) may or may not be counted and may give either status; with start-timestamp ingestion extra stored samples are allowed exactly at declared start timestamps (their acceptance rules are not modelled) and the reference's per-series state is re-synchronised from the observed dump after every judged request; for 1.0 a request with invalid items may be answered 2xx (valid part stored) or 4xx (nothing stored), the statement gives no counts there; exemplar timestamps are strictly increasing, exact duplicates or strictly older only (equal-timestamp ordering rules are not modelled); a float series never mixes sample types; type/unit label injection, OOO time window > 0, timestamps > now+10min and stored metadata are not driven; all timestamps lie in the past inside one hour so that head bounds never interfere. Four mechanisms fire on the unchanged tree and are reported under their own narrow kinds (FINDINGS.txt): 2.0 written counts taken at append time (samples/histograms, exemplars), 1.0 exemplars of a not yet existing native-histogram series dropped (accepted alternative per series entry), -0 doubles decoded as +0 (sent only in one extra codec-only request per case); exemplars are only generated for entries whose series has a valid sample stored before or in the same request.",
+		LevelNote: "Trusted: the tsdb querier/exemplar querier as the observer of what is stored. Reductions (oracle ladder): exact duplicates (same timestamp, same value as the newest sample) may or may not be counted and may give either status; with start-timestamp ingestion extra stored samples are allowed exactly at declared start timestamps (their acceptance rules are not modelled) and the reference's per-series state is re-synchronised from the observed dump after every judged request; for 1.0 a request with invalid items may be answered 2xx (valid part stored) or 4xx (nothing stored), the statement gives no counts there; exemplar timestamps are strictly increasing, exact duplicates or strictly older only (equal-timestamp ordering rules are not modelled); a float series never mixes sample types; type/unit label injection, OOO time window > 0, timestamps > now+10min and stored metadata are not driven; all timestamps lie in the past inside one hour so that head bounds never interfere. Five mechanisms fire on the unchanged tree and are reported under their own narrow kinds (FINDINGS.txt): 2.0 written counts taken at append time (samples/histograms, exemplars), a valid sample shadowed by the start-timestamp zero sample of a rejected sample (such samples are optional in the reference), 1.0 exemplars of a not yet existing native-histogram series dropped (accepted alternative per series entry), -0 doubles decoded as +0 (sent only in one extra codec-only request per case); exemplars are only generated for entries whose series has a valid sample stored before or in the same request.",
 		DesignRef: "DESIGN.md §5 C41, §10 item 14",
 		Rule:      "case = one DB + 5/8 generated requests; a request is non-trivial iff it carried at least one valid sample that had to be stored and the response was compared with the stored delta; distinct by (case, request index, protocol, request rendering hash)",
 		Cases: func(variant string, tier core.Tier) int {
